@@ -194,6 +194,18 @@ CLAIMS.update({
    technique="Rocq/Coq proof over an axiomatic hb calculus, side conditions from a translator-regenerated table + trace correspondence of orderings"),
 })
 
+CLAIMS["C14"] = dict(engine="SeqModel",
+   text="Coq theorems over coq/Seq/SeqSpec.v + SeqImpl.v + SeqRefine.v (one thread, API-call granularity, each call written as the code's own sequence of small "
+        "transitions): for every program over new/from_pointee/empty, load, load_full, Guard::into_inner/from_inner, drops in any order, store, swap, "
+        "compare_and_swap (8 forms of current), rcu, into_inner, several containers, None - each strategy (DefaultStrategy, FillFastSlots, RwLock) returns the "
+        "identities of the plain-variable/reference-count specification, count_impl + unpaid debts = count_spec after every step (debts = 0 for RwLock and "
+        "FillFastSlots), counts coincide once no guard is alive, compare_and_swap succeeds iff stored = as_raw(current), all forms of current denote one raw "
+        "pointer. Tied to /repo on every run by differential execution: generated programs on the real crate with real Arcs under the three strategies vs "
+        "the extracted specification and models vs an independent oracle (returned identities and every strong count after every operation).",
+   note="The models are hand transliterations for one thread; they predict the real strong_count exactly on every differential program (quick 1555 x 3, "
+        "thorough 100 055 x 3). Concurrency is C01-C13. Trusted: Coq kernel, extraction (ExtrOcamlBasic only) + coq/driver/seq_run.ml, harness/seq, tools/runners/seq.py.",
+   technique="Rocq/Coq proof (simulation between specification and per-strategy sequential models, induction over programs) + extracted-model differential testing on the real crate")
+
 REASONS = {}
 
 def main():
@@ -209,6 +221,7 @@ def main():
              {"name": "RefCntModel", "path": "/verif/coq/Seq", "serves_properties": ["C15"], "kind_free_text": "Coq model of std Arc/Rc/Weak + the RefCnt impls; harness/refcnt differential run"},
              {"name": "AccessModel", "path": "/verif/coq/Seq", "serves_properties": ["C17"], "kind_free_text": "Coq model of src/access.rs over a sequential store; harness/seqx differential run"},
              {"name": "AutoTraits", "path": "/verif/coq/Marker", "serves_properties": ["C19"], "kind_free_text": "Coq model of Rust's auto-trait rules over a type table regenerated from /repo by tools/gen_types.py; harness/marker validates against rustc"},
+             {"name": "SeqModel", "path": "/verif/coq/Seq", "serves_properties": ["C14"], "kind_free_text": "Coq specification + sequential models of the three strategies with a proven simulation; harness/seq differential run on the real crate"},
              {"name": "SerdeModel", "path": "/verif/coq/Seq", "serves_properties": ["C20"], "kind_free_text": "Coq model of src/serde.rs; harness/seqx differential run"},
          ],
          "checks": [], "not_applicable": [],
